@@ -1638,7 +1638,241 @@ def c19_geo(inp):
             "detail": "; ".join(f"{x['claim']}: {x['detail']}" for x in fl)[:1500] if fl else f"geometry tables agree with the property on {ntr} crafted table sets"}
 
 
-DRIVERS = {"c19_geo": c19_geo, "c15_gating": c15_gating, "c15_poser": c15_poser, "c11_plscf_findmin": c11_plscf_findmin, "c11_mpe": c11_mpe, "c06_fdd": c06_fdd, "c20_plots": c20_plots, "c18_indicators": c18_indicators, "c13_sdest": c13_sdest, "c04_preger": c04_preger, "c03_split": c03_split, "c14_sequences": c14_sequences, "c16_dialog": c16_dialog, "c02_merge": c02_merge, "c09_run": c09_run, "c10_run": c10_run, "c10_fn": c10_fn}
+# ----------------------------------------------------------------------------------
+# C01 / C03 / C05: exact recovery on noise-free data (bounded stand-ins) and the modal-parameter formulas
+# ----------------------------------------------------------------------------------
+
+def _mac1(a, b):
+    a, b = np.asarray(a).reshape(-1), np.asarray(b).reshape(-1)
+    return abs(np.vdot(a, b)) ** 2 / (np.vdot(a, a).real * np.vdot(b, b).real)
+
+
+def _free_system(rng, m, nch, fs, complex_shapes=False):
+    f = np.sort(rng.uniform(0.04, 0.40, m)) * fs
+    while m > 1 and np.min(np.diff(f)) < 0.03 * fs:
+        f = np.sort(rng.uniform(0.04, 0.40, m)) * fs
+    xi = rng.uniform(0.004, 0.05, m)
+    lam = -xi * 2 * np.pi * f + 1j * 2 * np.pi * f * np.sqrt(1 - xi ** 2)
+    phi = rng.randn(nch, m) + (1j * 0.4 * rng.randn(nch, m) if complex_shapes else 0)
+    return f, xi, lam, phi
+
+
+def _free_response(rng, lam, phi, n, fs, gain=1.0):
+    t = np.arange(n) / fs
+    amp = (rng.uniform(0.5, 2.0, len(lam)) * np.exp(1j * rng.uniform(0, 2 * np.pi, len(lam)))) * gain
+    y = np.zeros((n, phi.shape[0]))
+    for k in range(len(lam)):
+        y += 2 * np.real(np.outer(np.exp(lam[k] * t) * amp[k], phi[:, k]))
+    return y
+
+
+def _match_modes(f_true, xi_true, phi_true, Fn, Xi, Phi, tag, ftol=1e-6, xtol=1e-5, mactol=1e-6):
+    """every true mode appears exactly once among the poles with positive imaginary part; returns error string or None"""
+    Fn, Xi = np.asarray(Fn, float), np.asarray(Xi, float)
+    for k, f in enumerate(f_true):
+        hits = [j for j in range(len(Fn)) if np.isfinite(Fn[j]) and abs(Fn[j] - f) <= ftol * f]
+        if not hits:
+            return f"{tag}: no pole at f={f:.6f} Hz (poles {np.round(Fn[np.isfinite(Fn)], 5).tolist()})"
+        j = hits[0]
+        if abs(Xi[j] - xi_true[k]) > xtol:
+            return f"{tag}: damping of the pole at {f:.4f} Hz is {Xi[j]:.6f}, the system's is {xi_true[k]:.6f}"
+        mac = _mac1(Phi[j], phi_true[:, k])
+        if abs(mac - 1) > mactol:
+            return f"{tag}: MAC of the shape at {f:.4f} Hz with the system's shape is {mac:.6f}"
+    return None
+
+
+def c01_exact(inp):
+    from pyoma2.algorithms import SSIcov, SSIdat
+    from pyoma2.functions import ssi
+    from pyoma2.setup import SingleSetup
+    rng = np.random.RandomState(int(inp.get("seed", 1)))
+    ntr = int(inp.get("trials", 12))
+    for trial in range(ntr):
+        m = int(rng.randint(1, 5))
+        nch = int(rng.randint(max(2, m), 7))
+        fs = float(rng.choice([50.0, 100.0, 256.0]))
+        f, xi, lam, phi = _free_system(rng, m, nch, fs, complex_shapes=bool(trial % 2))
+        n = int(rng.choice([600, 900]))
+        y = _free_response(rng, lam, phi, n, fs)
+        br = 2 * m + int(rng.randint(2, 6))
+        ctx = f"m={m}, Nch={nch}, fs={fs}, br={br}, f={np.round(f, 4).tolist()}, xi={np.round(xi, 4).tolist()}, trial {trial}"
+        # ---- realisation step alone on an exact rank-2m Hankel matrix (fast and legacy) ----------------------
+        mu = np.exp(np.concatenate([lam, lam.conj()]) / fs)
+        V = np.concatenate([phi, phi.conj()], axis=1)
+        Obs_t = np.vstack([V * mu ** i for i in range(br + 1)])
+        Ctr = np.vstack([(rng.randn(2 * m) + 1j * rng.randn(2 * m))[None, :] * 0 + (mu ** j)[None, :] for j in range((br + 1) * nch)]).T
+        g = rng.randn(m) + 1j * rng.randn(m)
+        Ctr = Ctr * np.concatenate([g, g.conj()])[:, None]
+        H = np.real(Obs_t @ Ctr)
+        for name, fn_ in (("SSI_fast", lambda: ssi.SSI_fast(H, br, 2 * m + 2, step=1)[1:3]), ("SSI", lambda: ssi.SSI(H, br, 2 * m + 2, step=1))):
+            try:
+                A, C = fn_()
+                r = ssi.ac2mp(A[2 * m], C[2 * m], 1 / fs)
+            except Exception as e:      # noqa: BLE001
+                return {"reproduced": True, "detail": f"{name} raised {type(e).__name__}: {e} ({ctx})"}
+            keep = np.imag(r[3]) > 0
+            if int(np.sum(keep)) != m:
+                return {"reproduced": True, "detail": f"{name}: order {2 * m} holds {int(np.sum(keep))} conjugate pole pairs instead of {m} ({ctx})"}
+            err = _match_modes(f, xi, phi, r[0][keep], r[1][keep], r[2][keep], f"{name} on an exact rank-{2 * m} Hankel matrix", 1e-6, 1e-6, 1e-6)
+            if err:
+                return {"reproduced": True, "detail": err + f" ({ctx})"}
+        # ---- through a single setup, both Hankel methods ----------------------------------------------------------
+        refs = None if trial % 3 else sorted(rng.choice(nch, size=max(1, nch - 1), replace=False).tolist())
+        if refs is not None and np.linalg.matrix_rank(phi[refs, :]) < min(m, len(refs)):
+            refs = None
+        for cls, meth in ((SSIcov, "cov_mm"), (SSIdat, "dat")):
+            st = SingleSetup(y.copy(), fs)
+            alg = cls(name="a", br=br, ordmax=2 * m + 2, method=meth, ref_ind=refs, calc_unc=False,
+                      hc=dict(conj=True, xi_max=0.2, mpc_lim=0.0, mpd_lim=10.0, cov_max=1e9))
+            st.add_algorithms(alg)
+            try:
+                st.run_by_name("a")
+            except Exception as e:      # noqa: BLE001
+                return {"reproduced": True, "detail": f"{cls.__name__}({meth}).run raised {type(e).__name__}: {e} ({ctx})"}
+            res = alg.result
+            col = 2 * m
+            Fn, Xi, Phi, Lam = res.Fn_poles[:, col], res.Xi_poles[:, col], res.Phi_poles[:, col, :], res.Lambds[:, col]
+            fin = np.isfinite(Fn)
+            tol = 1e-5 if meth == "cov_mm" else 1e-6
+            keep = fin & (np.imag(Lam) > 0)
+            if int(np.sum(fin)) != 2 * m or int(np.sum(keep)) != m:
+                return {"reproduced": True, "detail": f"{cls.__name__}({meth}): order {col} holds {int(np.sum(fin))} poles / {int(np.sum(keep))} with positive imaginary part instead of {2 * m} / {m} ({ctx}, refs={refs})"}
+            err = _match_modes(f, xi, phi, Fn[keep], Xi[keep], Phi[keep], f"{cls.__name__}({meth}) at order {col}", tol * 10, tol * 10, tol * 10)
+            if err:
+                return {"reproduced": True, "detail": err + f" ({ctx}, refs={refs})"}
+            # extraction at that order returns those values
+            try:
+                st.mpe("a", sel_freq=[float(x) for x in f], order=col, rtol=1e-3)
+            except Exception as e:      # noqa: BLE001
+                return {"reproduced": True, "detail": f"mpe at order {col} raised {type(e).__name__}: {e} ({ctx})"}
+            r2 = alg.result
+            if np.shape(r2.Fn) != (m,) or not np.allclose(r2.Fn, f, rtol=tol * 10) or not np.allclose(r2.Xi, xi, atol=tol * 10) \
+                    or any(abs(_mac1(r2.Phi[:, k], phi[:, k]) - 1) > tol * 10 for k in range(m)):
+                return {"reproduced": True, "detail": f"{cls.__name__}({meth}).mpe at order {col}: Fn={np.round(r2.Fn, 5).tolist()}, Xi={np.round(r2.Xi, 5).tolist()} vs the system's ({ctx})"}
+    return {"reproduced": False, "detail": f"{ntr} noise-free systems: realisation (fast and legacy), SSIcov(cov_mm) and SSIdat through a single setup recover f, xi and shapes at order 2m"}
+
+
+def c01_modal(inp):
+    """ac2mp / ac2mp_poly against numpy's eig on random state matrices (replay of the formula contracts)"""
+    from pyoma2.functions import plscf, ssi
+    rng = np.random.RandomState(int(inp.get("seed", 2)))
+    for trial in range(int(inp.get("trials", 60))):
+        n, nch = int(rng.randint(1, 7)), int(rng.randint(1, 5))
+        A = rng.randn(n, n) * 0.6
+        Cm = rng.randn(nch, n)
+        dt = float(rng.choice([0.01, 0.1, 1.0]))
+        w, v = np.linalg.eig(A)
+        lam = np.log(w) / dt
+        fn, xi, phi, lam_c = ssi.ac2mp(A, Cm, dt)[:4]
+        w2 = np.exp(np.asarray(lam_c) * dt)
+        order = [int(np.argmin(np.abs(w - x))) for x in w2]
+        if sorted(order) != list(range(n)):
+            return {"reproduced": True, "detail": "ac2mp: poles are not the eigenvalues of A mapped to continuous time"}
+        for j, k in enumerate(order):
+            raw = Cm @ v[:, k]
+            want = raw / raw[np.argmax(np.abs(raw))]
+            if abs(fn[j] - abs(lam[k]) / (2 * np.pi)) > 1e-9 * max(1, abs(lam[k])) or abs(xi[j] + lam[k].real / abs(lam[k])) > 1e-9 \
+                    or abs(_mac1(phi[j], want) - 1) > 1e-9 or abs(np.max(np.abs(phi[j])) - 1) > 1e-9:
+                return {"reproduced": True, "detail": f"ac2mp: mode {j}: fn={fn[j]:.6f}, xi={xi[j]:.6f}, max|phi|={np.max(np.abs(phi[j])):.6f}; from eig: fn={abs(lam[k]) / (2 * np.pi):.6f}, xi={-lam[k].real / abs(lam[k]):.6f}"}
+        for meth in ("per", "cor"):
+            nxseg = 128
+            fn, xi, phi, lam_c = plscf.ac2mp_poly(A, Cm, dt, meth, nxseg)
+            for j in range(n):
+                k = int(np.argmin(np.abs(w - np.linalg.eig(A)[0][j])))
+                unstable = lam[k].real > 0
+                if unstable:
+                    if not (np.isnan(fn[j]) and np.isnan(xi[j]) and np.all(np.isnan(phi[j])) and np.isnan(lam_c[j])):
+                        return {"reproduced": True, "detail": f"ac2mp_poly({meth}): a root with positive real part ({lam[k]:.4f}) is reported"}
+                    continue
+                lk = lam[k] - (1 / (-(nxseg - 1) / np.log(0.01)) if meth == "cor" else 0)
+                raw = Cm @ v[:, k]
+                want = raw / raw[np.argmax(np.abs(raw))]
+                if abs(fn[j] - abs(lk) / (2 * np.pi)) > 1e-9 * max(1, abs(lk)) or abs(xi[j] + lk.real / abs(lk)) > 1e-9 or abs(_mac1(phi[j], want) - 1) > 1e-9 \
+                        or abs(np.max(np.abs(phi[j])) - 1) > 1e-9:
+                    return {"reproduced": True, "detail": f"ac2mp_poly({meth}): root {j}: fn={fn[j]:.6f}, xi={xi[j]:.6f}, max|phi|={np.max(np.abs(phi[j])):.6f}; expected fn={abs(lk) / (2 * np.pi):.6f}, xi={-lk.real / abs(lk):.6f}"}
+    return {"reproduced": False, "detail": "ac2mp and ac2mp_poly agree with numpy's eigen-decomposition and the property's formulas on random state matrices"}
+
+
+
+def c05_exact(inp):
+    """pLSCF on an exactly rational spectrum H(f) = B(x_f) A(x_f)^-1, x_f = exp(sgn i w_f dt): coefficients and poles"""
+    from pyoma2.functions import plscf
+    rng = np.random.RandomState(int(inp.get("seed", 5)))
+    ntr = int(inp.get("trials", 25))
+    for trial in range(ntr):
+        n = int(rng.randint(1, 5))
+        nch = int(rng.randint(2, 5))
+        nref = int(rng.randint(1, nch + 1))
+        sgn = -1 if trial % 2 == 0 else 1
+        dt = float(rng.choice([0.01, 0.05, 0.2]))
+        nf = int(4 * (n + 1) + rng.randint(0, 30))
+        A = [rng.randn(nch, nch) * 0.5 for _ in range(n + 1)]
+        B = [rng.randn(nref, nch) for _ in range(n + 1)]
+        if sgn == -1:
+            A[0] = np.eye(nch)
+        else:
+            A[n] = np.eye(nch)
+        A[n if sgn == -1 else 0] = A[n if sgn == -1 else 0] + 2.0 * np.eye(nch) * (1 if rng.rand() < 0.5 else -1)   # well conditioned leading/trailing block
+        fs = 1 / dt
+        freq = np.linspace(0.0, fs / 2, nf)
+        x = np.exp(sgn * 1j * 2 * np.pi * freq * dt)
+        Sy = np.zeros((nref, nch, nf), dtype=complex)
+        ok = True
+        for k in range(nf):
+            Ax = sum(A[r] * x[k] ** r for r in range(n + 1))
+            Bx = sum(B[r] * x[k] ** r for r in range(n + 1))
+            if np.linalg.cond(Ax) > 1e6:
+                ok = False
+                break
+            Sy[:, :, k] = Bx @ np.linalg.inv(Ax)
+        if not ok:
+            continue
+        ordmax = n + int(rng.randint(0, 2))
+        ctx = f"order {n}, Nch={nch}, Nref={nref}, Nf={nf}, dt={dt}, sgn_basf={sgn}, ordmax={ordmax}, trial {trial}"
+        try:
+            Ad, Bn = plscf.pLSCF(Sy, dt, ordmax, sgn_basf=sgn)
+        except Exception as e:      # noqa: BLE001
+            return {"reproduced": True, "detail": f"pLSCF raised {type(e).__name__}: {e} ({ctx})"}
+        Ae, Be = np.asarray(Ad[n - 1]), np.asarray(Bn[n - 1])
+        if Ae.shape != (n + 1, nch, nch) or Be.shape != (n + 1, nref, nch):
+            return {"reproduced": True, "detail": f"pLSCF: order-{n} model has shapes {Ae.shape}, {Be.shape} ({ctx})"}
+        sc = max(1.0, max(np.abs(a).max() for a in A))
+        if max(np.abs(Ae[r] - A[r]).max() for r in range(n + 1)) > 1e-6 * sc or max(np.abs(Be[r] - B[r]).max() for r in range(n + 1)) > 1e-6 * sc * 10:
+            return {"reproduced": True, "detail": f"pLSCF: the order-{n} model does not reproduce the denominator/numerator coefficients of the exact right matrix fraction "
+                                                  f"(max |dA| = {max(np.abs(Ae[r] - A[r]).max() for r in range(n + 1)):.2e}, max |dB| = {max(np.abs(Be[r] - B[r]).max() for r in range(n + 1)):.2e}; {ctx})"}
+        # poles: roots of det A(x) = 0 mapped to continuous time
+        comp = np.zeros((n * nch, n * nch))
+        comp[nch:, :-nch] = np.eye((n - 1) * nch)
+        Ainv = np.linalg.inv(A[n])
+        for i in range(n):
+            comp[:nch, i * nch:(i + 1) * nch] = -Ainv @ A[n - 1 - i]
+        roots = np.linalg.eigvals(comp)
+        lam = np.log(roots) / dt
+        keep = lam[np.real(lam) <= 0]
+        try:
+            Fn, Xi, Phi, Lam = plscf.pLSCF_poles(Ad, Bn, dt, "per", 2 * (nf - 1))
+        except Exception as e:      # noqa: BLE001
+            return {"reproduced": True, "detail": f"pLSCF_poles raised {type(e).__name__}: {e} ({ctx})"}
+        col = n - 1
+        got = Lam[:, col]
+        fin = ~np.isnan(got)
+        if Fn.shape != Xi.shape or Fn.shape != Lam.shape or Fn.shape[1] != ordmax or Phi.shape != Fn.shape + (nref,) \
+                or not (np.array_equal(np.isnan(Fn[:, col]), ~fin) and np.array_equal(np.isnan(Xi[:, col]), ~fin)
+                        and np.array_equal(np.all(np.isnan(Phi[:, col, :]), axis=1), ~fin)):
+            return {"reproduced": True, "detail": f"pLSCF_poles: table shapes {Fn.shape}/{Xi.shape}/{Phi.shape}/{Lam.shape} or the NaN patterns of the tables differ at order {n} ({ctx})"}
+        if int(np.sum(fin)) != len(keep):
+            return {"reproduced": True, "detail": f"pLSCF_poles: order {n} reports {int(np.sum(fin))} poles, det A(x) has {len(keep)} of {n * nch} roots with non-positive real part ({ctx})"}
+        for lk in keep:
+            j = int(np.argmin(np.where(fin, np.abs(got - lk), np.inf)))
+            if abs(got[j] - lk) > 1e-6 * max(1, abs(lk)):
+                return {"reproduced": True, "detail": f"pLSCF_poles: root {lk:.5f} of det A is not reported at order {n} (nearest {got[j]:.5f}) ({ctx})"}
+            if abs(Fn[j, col] - abs(lk) / (2 * np.pi)) > 1e-6 * max(1, abs(lk)) or abs(Xi[j, col] + lk.real / abs(lk)) > 1e-6:
+                return {"reproduced": True, "detail": f"pLSCF_poles: pole {lk:.5f}: fn={Fn[j, col]:.6f}, xi={Xi[j, col]:.6f}, expected {abs(lk) / (2 * np.pi):.6f}, {-lk.real / abs(lk):.6f} ({ctx})"}
+    return {"reproduced": False, "detail": f"pLSCF recovers the coefficients and reports the roots of det A on {ntr} exact right matrix fractions"}
+
+
+DRIVERS = {"c05_exact": c05_exact, "c01_exact": c01_exact, "c01_modal": c01_modal, "c19_geo": c19_geo, "c15_gating": c15_gating, "c15_poser": c15_poser, "c11_plscf_findmin": c11_plscf_findmin, "c11_mpe": c11_mpe, "c06_fdd": c06_fdd, "c20_plots": c20_plots, "c18_indicators": c18_indicators, "c13_sdest": c13_sdest, "c04_preger": c04_preger, "c03_split": c03_split, "c14_sequences": c14_sequences, "c16_dialog": c16_dialog, "c02_merge": c02_merge, "c09_run": c09_run, "c10_run": c10_run, "c10_fn": c10_fn}
 
 
 def main():
